@@ -13,6 +13,8 @@ import (
 	"net"
 	"sync"
 	"time"
+
+	kmip "github.com/smira/go-kmip"
 )
 
 type pki struct {
@@ -101,3 +103,13 @@ var tlsVersions = []struct {
 	name string
 	v    uint16
 }{{"1.0", tls.VersionTLS10}, {"1.1", tls.VersionTLS11}, {"1.2", tls.VersionTLS12}, {"1.3", tls.VersionTLS13}}
+
+func clientServerTLS(p *pki) *tls.Config {
+	cfg := &tls.Config{Certificates: []tls.Certificate{p.server["valid"]}, ClientCAs: p.pool}
+	kmip.DefaultServerTLSConfig(cfg)
+	return cfg
+}
+
+func tlsListen(cfg *tls.Config) (net.Listener, error) {
+	return tls.Listen("tcp", "127.0.0.1:0", cfg)
+}
